@@ -38,6 +38,8 @@ COLS = ['fa', 'fb', 'num', 'label']
 
 def jobs(tier):
     import pandas  # noqa
+    from vlib import selfcheck
+    selfcheck.check_sympd()      # the pandas stand-in must agree with the real pandas on the operations the code uses
     out = _ch_jobs(tier)
     for fi in range(len(FLAGS)):
         out.append({'cond': 'pipeline', 'pins': {'flags': fi}, 'weight': 3, 'label': f'flags={FLAGS[fi]}'})
